@@ -11,7 +11,10 @@ use mahf::{
     configuration::ConfigurationBuilder,
     lens::ValueOf,
     logging::{LogConfig, Logger},
-    state::{common::Iterations, StateReq},
+    state::{
+        common::{Evaluations, Iterations},
+        StateReq,
+    },
     Component, Condition, Configuration, CustomState, State,
 };
 use rand::Rng;
@@ -25,7 +28,7 @@ use crate::{
 
 type P = TagProblem;
 
-#[derive(Tid)]
+#[derive(Tid, Clone, Serialize)]
 pub struct K0(pub u32);
 impl CustomState<'_> for K0 {}
 impl std::ops::Deref for K0 {
@@ -39,7 +42,7 @@ impl std::ops::DerefMut for K0 {
         &mut self.0
     }
 }
-#[derive(Tid)]
+#[derive(Tid, Clone, Serialize)]
 pub struct U(pub u32);
 impl CustomState<'_> for U {}
 impl std::ops::Deref for U {
@@ -49,7 +52,7 @@ impl std::ops::Deref for U {
     }
 }
 
-#[derive(Tid)]
+#[derive(Tid, Clone, Serialize)]
 pub struct Missing(pub u32);
 impl CustomState<'_> for Missing {}
 impl std::ops::Deref for Missing {
@@ -69,14 +72,17 @@ impl Condition<P> for TrigConst {
 }
 #[derive(Clone, Serialize)]
 pub struct TrigScripted {
+    /// the script that stays silent at first
+    late: bool,
     #[serde(skip)]
     pos: Arc<Mutex<usize>>,
 }
 const TRIG_SCRIPT: [bool; 5] = [true, false, true, true, false];
+const LATE_SCRIPT: [bool; 5] = [false, true, false, true, true];
 impl Condition<P> for TrigScripted {
     fn evaluate(&self, _: &P, _: &mut State<P>) -> ExecResult<bool> {
         let mut p = self.pos.lock().unwrap();
-        let b = TRIG_SCRIPT.get(*p).copied().unwrap_or(false);
+        let b = if self.late { LATE_SCRIPT } else { TRIG_SCRIPT }.get(*p).copied().unwrap_or(false);
         *p += 1;
         Ok(b)
     }
@@ -84,13 +90,24 @@ impl Condition<P> for TrigScripted {
 
 fn short_name(n: &str) -> &'static str {
     if n.contains("Progress<") {
-        "PG"
+        // the progress of WHICH counter
+        if n.contains("::K0>") {
+            "PG"
+        } else if n.contains("::Iterations>") {
+            "PI"
+        } else if n.contains("::Evaluations>") {
+            "PE"
+        } else {
+            "UNKNOWN"
+        }
     } else if n.ends_with("::K0") {
         "K0"
     } else if n.ends_with("::U") {
         "U"
-    } else if n.ends_with("Iterations") {
+    } else if n.ends_with("::Iterations") {
         "IT"
+    } else if n.ends_with("::Evaluations") {
+        "EV"
     } else if n.ends_with("::Missing") {
         "MISSING"
     } else if n.contains("BestObjectiveValue") {
@@ -228,6 +245,16 @@ impl Component<P> for VLeaf {
             state.insert(K0(0));
             // a float state kept next to K0 (PG = 0.75 * K0: also values above 1)
             state.insert(Progress::<ValueOf<K0>>::default());
+            // the states the `with_common` shorthand of LogConfig names, and the progress of the other counter, kept next
+            // to K0 with values that tell them apart: Evaluations = K0 + 10, progress of the iterations = (K0 + 20) / 4,
+            // progress of the evaluations = (K0 + 30) / 4
+            state.insert(Evaluations(10));
+            let mut pi = Progress::<ValueOf<Iterations>>::default();
+            *pi = 20.0 * 0.25;
+            state.insert(pi);
+            let mut pe = Progress::<ValueOf<Evaluations>>::default();
+            *pe = 30.0 * 0.25;
+            state.insert(pe);
         }
         Ok(())
     }
@@ -255,6 +282,15 @@ impl Component<P> for VLeaf {
             }
             if let (Some(k), Ok(mut p)) = (now, state.try_borrow_value_mut::<Progress<ValueOf<K0>>>()) {
                 *p = k as f64 * 0.75;
+            }
+            if let (Some(k), Ok(mut e)) = (now, state.try_borrow_value_mut::<Evaluations>()) {
+                *e = k + 10;
+            }
+            if let (Some(k), Ok(mut p)) = (now, state.try_borrow_value_mut::<Progress<ValueOf<Iterations>>>()) {
+                *p = (k + 20) as f64 * 0.25;
+            }
+            if let (Some(k), Ok(mut p)) = (now, state.try_borrow_value_mut::<Progress<ValueOf<Evaluations>>>()) {
+                *p = (k + 30) as f64 * 0.25;
             }
         }
         Ok(())
@@ -338,6 +374,14 @@ pub fn build_body(mut b: ConfigurationBuilder<P>, body: &Value, path: &[u32], ct
                             let mut pg = Progress::<ValueOf<K0>>::default();
                             *pg = 5.0 * 0.75;
                             state.insert(pg);
+                            // (the states kept next to K0, see VLeaf::init)
+                            state.insert(Evaluations(5 + 10));
+                            let mut pi = Progress::<ValueOf<Iterations>>::default();
+                            *pi = (5.0 + 20.0) * 0.25;
+                            state.insert(pi);
+                            let mut pe = Progress::<ValueOf<Evaluations>>::default();
+                            *pe = (5.0 + 30.0) * 0.25;
+                            state.insert(pe);
                         }
                         Ok(())
                     },
@@ -352,10 +396,14 @@ pub fn build_body(mut b: ConfigurationBuilder<P>, body: &Value, path: &[u32], ct
 
 /// Reads the program back from the name-preserving serialisation of the built configuration:
 /// possible only if the serialisation names every component with its parameters and nesting.
+/// A body that is serialised as one component instead of a block (`Loop::new(cond, component)`,
+/// `Scope::new_with(.., component, ..)` accept either) is a body of that one statement; whether a block of one and a bare
+/// component stay apart in the serialisation is judged by the injectivity clause of Trace_Ser (builder terms).
+/// Every element has the statement shape, whatever was found (TLC cannot compare values of different shapes).
 fn skeleton(v: &Value) -> Value {
     match v {
         Value::Array(a) => Value::Array(a.iter().map(skeleton_stmt).collect()),
-        other => json!([format!("not a block: {other}")]),
+        other => Value::Array(vec![skeleton_stmt(other)]),
     }
 }
 fn skeleton_stmt(v: &Value) -> Value {
@@ -410,29 +458,56 @@ fn run_case(out: &mut Out, run: u64, case: &Value) {
     {
         // the run always has a log configuration (possibly without rules)
         let mut cfg = LogConfig::<P>::new();
+        // the caller's LogConfig calls ("adds"): with / with_auto / with_many / with_common, as a user writes them
         for r in rules.as_array().unwrap() {
             let trigger: Box<dyn Condition<P>> = match r["tk"].as_str().unwrap() {
                 "always" => Box::new(TrigConst(true)),
                 "never" => Box::new(TrigConst(false)),
                 "every2" => EveryN::iterations(2),
-                "scripted" => Box::new(TrigScripted { pos: Arc::new(Mutex::new(0)) }),
+                "scripted" => Box::new(TrigScripted { late: false, pos: Arc::new(Mutex::new(0)) }),
+                "late" => Box::new(TrigScripted { late: true, pos: Arc::new(Mutex::new(0)) }),
                 other => panic!("unknown trigger kind {other}"),
             };
-            if r["src"].as_str() == Some("PG") {
-                // the state itself is logged (IdLens): its own Serialize implementation produces the entry
-                cfg.with_auto::<Progress<ValueOf<K0>>>(trigger);
-                continue;
-            }
-            let extractor = match r["src"].as_str().unwrap() {
+            let srcs: Vec<&str> = r["srcs"].as_array().unwrap().iter().map(|x| x.as_str().unwrap()).collect();
+            let extractor = |src: &str| match src {
                 "K0" => ValueOf::<K0>::entry::<P>(),
                 "U" => ValueOf::<U>::entry::<P>(),
                 "IT" => ValueOf::<Iterations>::entry::<P>(),
                 "MISSING" => ValueOf::<Missing>::entry::<P>(),
+                "EV" => ValueOf::<Evaluations>::entry::<P>(),
+                "PG" => ValueOf::<Progress<ValueOf<K0>>>::entry::<P>(),
+                "PI" => ValueOf::<Progress<ValueOf<Iterations>>>::entry::<P>(),
+                "PE" => ValueOf::<Progress<ValueOf<Evaluations>>>::entry::<P>(),
                 // the best objective value found so far: these runs never record one, the source is missing
                 "BV" => mahf::lens::common::BestObjectiveValueLens::<P>::entry(),
                 other => panic!("unknown source {other}"),
             };
-            cfg.with(trigger, extractor);
+            match r["via"].as_str().unwrap() {
+                "with" => {
+                    cfg.with(trigger, extractor(srcs[0]));
+                }
+                // the state itself is logged (IdLens): its own Serialize implementation produces the entry
+                "auto" => {
+                    match srcs[0] {
+                        "K0" => cfg.with_auto::<K0>(trigger),
+                        "U" => cfg.with_auto::<U>(trigger),
+                        "IT" => cfg.with_auto::<Iterations>(trigger),
+                        "MISSING" => cfg.with_auto::<Missing>(trigger),
+                        "EV" => cfg.with_auto::<Evaluations>(trigger),
+                        "PG" => cfg.with_auto::<Progress<ValueOf<K0>>>(trigger),
+                        "PI" => cfg.with_auto::<Progress<ValueOf<Iterations>>>(trigger),
+                        "PE" => cfg.with_auto::<Progress<ValueOf<Evaluations>>>(trigger),
+                        other => panic!("source {other} is no state"),
+                    };
+                }
+                "many" => {
+                    cfg.with_many(trigger, srcs.iter().map(|s| extractor(s)).collect::<Vec<_>>());
+                }
+                "common" => {
+                    cfg.with_common(trigger);
+                }
+                other => panic!("unknown way to add a rule {other}"),
+            }
         }
         state.insert(cfg);
     }
@@ -539,9 +614,17 @@ pub fn main(args: &Args) -> usize {
                     let nrules = rng.gen_range(0..=4);
                     let rules: Vec<Value> = (0..nrules)
                         .map(|_| {
-                            let tk = ["always", "never", "every2", "scripted"][rng.gen_range(0..4)];
-                            let src = ["K0", "U", "IT", "MISSING", "PG", "BV"][rng.gen_range(0..6)];
-                            json!({"tk": tk, "src": src})
+                            const SRCS: [&str; 9] = ["K0", "U", "IT", "MISSING", "PG", "BV", "EV", "PI", "PE"];
+                            let via = ["with", "with", "auto", "many", "common"][rng.gen_range(0..5)];
+                            // one trigger object serves several rules of with_many / with_common: stateless kinds only
+                            let tk = ["always", "never", "every2", "scripted", "late"][rng.gen_range(0..if via == "many" || via == "common" { 3 } else { 5 })];
+                            let srcs: Vec<&str> = match via {
+                                "with" => vec![SRCS[rng.gen_range(0..9)]],
+                                "auto" => vec![["K0", "U", "IT", "MISSING", "PG", "EV", "PI", "PE"][rng.gen_range(0..8)]],
+                                "many" => (0..rng.gen_range(0..=3)).map(|_| SRCS[rng.gen_range(0..9)]).collect(),
+                                _ => vec![],
+                            };
+                            json!({"tk": tk, "via": via, "srcs": srcs})
                         })
                         .collect();
                     let rootit = [0, 0, 3][rng.gen_range(0..3)];
